@@ -5,7 +5,7 @@
    qu_conj_gufunc) and orix/quaternion/_conversions.py (qu2om_single),
    instantiated on the real numbers. *)
 From Coq Require Import Reals List Bool.
-From Verif Require Import Scalar RInst NdIndex QuatKernels Conversions Quat QuatAlg.
+From Verif Require Import Scalar RInst NdIndex QuatKernels Conversions Quat RotArr QuatAlg.
 Local Open Scope R_scope.
 
 (* (R1*R2)*v = R1*(R2*v) for all unit quaternions and all vectors *)
@@ -85,6 +85,20 @@ Theorem C02_outer_vectors_layout : forall (sA sB : list nat) (A : list rot) (B :
   /\ length (outer (ract ROps) A B) = size (sA ++ sB).
 Proof. intros; apply outer_shaped; assumption. Qed.
 Print Assumptions C02_outer_vectors_layout.
+
+(* element-wise products of broadcastable shapes (NumPy rule, model Base/NdIndex.bcast2,
+   tied to the implementation by the correspondence): the element at every valid
+   multi-index of the broadcast shape is the product of the operands' elements at
+   that index with the size-1 / missing axes clamped to 0 *)
+Theorem C02_broadcast_elementwise : forall (sA sB s : list nat) (A B l : list rot) d,
+  rbcast ROps sA sB A B = Some (s, l) ->
+  bshape sA sB = Some s /\ length l = size s /\
+  forall idx, valid s idx ->
+    nth (ravel s idx) l d =
+    rmul ROps (nth (ravel (pad_shape (length s) sA) (bidx (pad_shape (length s) sA) idx)) A (zq ROps, false))
+              (nth (ravel (pad_shape (length s) sB) (bidx (pad_shape (length s) sB) idx)) B (zq ROps, false)).
+Proof. intros sA sB s A B l d H. exact (bcast2_spec _ _ _ d sA sB A B s l H). Qed.
+Print Assumptions C02_broadcast_elementwise.
 
 (* non-vacuity: the hypotheses are met by a non-trivial unit quaternion *)
 Example C02_nonvacuous : qnorm2 ROps (1/2, 1/2, 1/2, 1/2) = 1 /\ valid (2 :: 3 :: nil)%nat (1 :: 2 :: nil)%nat.
